@@ -12,7 +12,9 @@ use std::sync::{Arc, Mutex};
 pub mod pb { tonic::include_proto!("scrayosnet.passage.adapter"); }
 
 #[derive(Default)]
-struct Shared { disc_reply: Vec<pb::Target>, sel_reply: Option<Option<pb::Target>>, sel_error: bool, last_req: Option<pb::SelectRequest> }
+struct Shared { disc_reply: Vec<pb::Target>, sel_reply: Option<Option<pb::Target>>, sel_error: bool, last_req: Option<pb::SelectRequest>,
+    /// concurrent phase: answer every request with its own first candidate
+    echo_first: bool }
 
 #[derive(Clone)]
 struct Mock(Arc<Mutex<Shared>>);
@@ -27,7 +29,9 @@ impl pb::discovery_server::Discovery for Mock {
 impl pb::strategy_server::Strategy for Mock {
     async fn select_target(&self, r: tonic::Request<pb::SelectRequest>) -> Result<tonic::Response<pb::SelectResponse>, tonic::Status> {
         let mut s = self.0.lock().unwrap();
-        s.last_req = Some(r.into_inner());
+        let r = r.into_inner();
+        if s.echo_first { return Ok(tonic::Response::new(pb::SelectResponse { target: r.targets.first().cloned() })); }
+        s.last_req = Some(r);
         if s.sel_error { return Err(tonic::Status::internal("scripted")); }
         Ok(tonic::Response::new(pb::SelectResponse { target: s.sel_reply.clone().flatten() }))
     }
@@ -61,11 +65,12 @@ fn gen_md(rng: &mut Rng, dups: bool) -> Vec<(String, String)> {
 
 /// a status backend that takes 300 ms per answer and answers concurrently
 #[derive(Clone)]
-struct SlowStatus(Arc<std::sync::atomic::AtomicUsize>, Arc<std::sync::atomic::AtomicUsize>);
+struct SlowStatus(Arc<std::sync::atomic::AtomicUsize>, Arc<std::sync::atomic::AtomicUsize>, Arc<Mutex<Vec<pb::StatusRequest>>>);
 #[tonic::async_trait]
 impl pb::status_server::Status for SlowStatus {
-    async fn get_status(&self, _r: tonic::Request<pb::StatusRequest>) -> Result<tonic::Response<pb::StatusResponse>, tonic::Status> {
+    async fn get_status(&self, r: tonic::Request<pb::StatusRequest>) -> Result<tonic::Response<pb::StatusResponse>, tonic::Status> {
         use std::sync::atomic::Ordering::SeqCst;
+        self.2.lock().unwrap().push(r.into_inner());
         let now = self.0.fetch_add(1, SeqCst) + 1;
         self.1.fetch_max(now, SeqCst);
         tokio::time::sleep(std::time::Duration::from_millis(300)).await;
@@ -79,11 +84,12 @@ impl pb::status_server::Status for SlowStatus {
 pub fn status_overlap_case() -> Case {
     use passage_adapters::status::StatusAdapter;
     let rt = tokio::runtime::Builder::new_multi_thread().worker_threads(4).enable_all().build().unwrap();
-    let (lat, peak) = rt.block_on(async {
+    let lat_peak_notes = rt.block_on(async {
         let listener = tokio::net::TcpListener::bind("127.0.0.1:0").await.unwrap();
         let port = listener.local_addr().unwrap().port();
-        let svc = SlowStatus(Arc::new(0.into()), Arc::new(0.into()));
+        let svc = SlowStatus(Arc::new(0.into()), Arc::new(0.into()), Arc::new(Mutex::new(vec![])));
         let peak = svc.1.clone();
+        let seen = svc.2.clone();
         tokio::spawn(tonic::transport::Server::builder().add_service(pb::status_server::StatusServer::new(svc)).serve_with_incoming(tokio_stream::wrappers::TcpListenerStream::new(listener)));
         tokio::time::sleep(std::time::Duration::from_millis(50)).await;
         let adapter = Arc::new(passage_adapters_grpc::GrpcStatusAdapter::new(format!("http://127.0.0.1:{port}")).await.expect("status adapter"));
@@ -91,14 +97,25 @@ pub fn status_overlap_case() -> Case {
         let others: Vec<_> = (0..20).map(|_| { let a = adapter.clone(); tokio::spawn(async move { let _ = a.status(&client, ("h", 1), 767).await; }) }).collect();
         tokio::time::sleep(std::time::Duration::from_millis(30)).await;
         let t0 = std::time::Instant::now();
-        let ok = adapter.status(&client, ("h", 1), 767).await.is_ok();
+        let victim: SocketAddr = "203.0.113.7:40000".parse().unwrap();
+        let ok = adapter.status(&victim, ("play.example.org", 25577), 767).await.is_ok();
         let lat = t0.elapsed();
         for o in others { let _ = o.await; }
-        (if ok { Some(lat) } else { None }, peak.load(std::sync::atomic::Ordering::SeqCst))
+        // what the backend was told about that client, and a handshake announcing a negative protocol version
+        let mut notes = vec![];
+        match seen.lock().unwrap().iter().find(|r| r.client_address.as_ref().is_some_and(|a| a.hostname == "203.0.113.7")) {
+            Some(r) => { let (c, sv) = (r.client_address.clone().unwrap(), r.server_address.clone());
+                if c.port != 40000 || sv.as_ref().is_none_or(|a| a.hostname != "play.example.org" || a.port != 25577) || r.protocol != 767 { notes.push(format!("the status backend was told client {}:{}, server {:?}, protocol {} for a request from 203.0.113.7:40000 to play.example.org:25577 with protocol 767", c.hostname, c.port, sv.map(|a| (a.hostname, a.port)), r.protocol)); } }
+            None => notes.push("the status backend never saw the client's address 203.0.113.7".to_string()),
+        }
+        let a2 = adapter.clone();
+        if tokio::spawn(async move { a2.status(&victim, ("h", 1), -1).await.is_ok() }).await.is_err() { notes.push("the status adapter panicked on protocol version -1".to_string()); }
+        (if ok { Some(lat) } else { None }, peak.load(std::sync::atomic::Ordering::SeqCst), notes)
     });
+    let (lat, peak, notes) = lat_peak_notes;
     let served = lat.is_some_and(|d| d.as_millis() < 1000);
     Case { request: format!("c16.run proxy=0 limiter=0 gap=0 stalled=post detail=grpc-status-backend-20-waiting latency_us={}", lat.map_or(0, |d| d.as_micros())), observed: if served { "served" } else { "blocked" }.into(),
-        oracle: if served { None } else { Some(format!("with 20 other status requests in flight at a backend that answers each in 300 ms (at most {peak} reached it at once), a further client's status took {:?}", lat)) },
+        oracle: if served && notes.is_empty() { None } else if served { Some(notes.join("; ")) } else { Some(format!("with 20 other status requests in flight at a backend that answers each in 300 ms (at most {peak} reached it at once), a further client's status took {:?}", lat)) },
         class: "grpc-status-backend".into() }
 }
 
@@ -131,12 +148,14 @@ pub fn run(a: &Args) {
             let k = rng.below(5) as usize;
             let malformed = rng.chance(1, 3);
             let bad_at = rng.below(k.max(1) as u64) as usize;
+            // one reply in four lists servers twice under one identifier (once per address family, say), next to each other
+            let dup_ids = rng.chance(1, 4);
             let reply: Vec<pb::Target> = (0..k).map(|i| {
                 let bad = malformed && i == bad_at;
                 let kind = if bad { rng.below(3) } else { 9 };
                 let host = if kind == 1 { rng.pick(BAD_HOSTS).to_string() } else { rng.pick(IPS).to_string() };
                 let port = if kind == 2 { *rng.pick(&[65536u32, 70000, u32::MAX]) } else { *rng.pick(&[0u32, 1, 25565, 65535]) };
-                pb::Target { identifier: format!("srv-{i}"), address: if kind == 0 { None } else { Some(pb::Address { hostname: host, port }) },
+                pb::Target { identifier: if dup_ids { format!("srv-{}", i / 2) } else { format!("srv-{i}") }, address: if kind == 0 { None } else { Some(pb::Address { hostname: host, port }) },
                     meta: gen_md(&mut rng, true).into_iter().map(|(key, value)| pb::MetaEntry { key, value }).collect() }
             }).collect();
             shared.lock().unwrap().disc_reply = reply.clone();
@@ -166,7 +185,7 @@ pub fn run(a: &Args) {
             let client = SocketAddr::new(rng.pick(IPS).parse().unwrap(), *rng.pick(&[0u16, 40000, 65535]));
             // whatever text the client put into its handshake, verbatim: trailing dots, case, spaces, markers after a NUL
             let server = (rng.pick(&["mc.example.org", "", "ünï", "10.0.0.1", "play.example.org.", "eu.play.example.org..", ".", "Play.Example.ORG", " padded ", "mc.example.org\u{0}FML3\u{0}", "[2001:db8::1]", "xn--nxasmq6b.example"]).to_string(), *rng.pick(&[0u16, 25565, 65535]));
-            let proto = *rng.pick(&[0i32, 767, 47, i32::MAX]);
+            let proto = *rng.pick(&[0i32, 767, 47, i32::MAX, -1, i32::MIN]);
             let user = rng.pick(&["Notch", "Ünï", "a&b", ""]).to_string();
             let uid = uuid::Uuid::from_u128(rng.next() as u128 * 0x1_0000_0001);
             // reply: echo a candidate as the service received it, a foreign/malformed target, none, or an error
@@ -182,9 +201,10 @@ pub fn run(a: &Args) {
             let echo = |t: &Target| pb::Target { identifier: t.identifier.clone(), address: Some(pb::Address { hostname: t.address.ip().to_string(), port: u32::from(t.address.port()) }), meta: t.meta.iter().map(|(k, v)| pb::MetaEntry { key: k.clone(), value: v.clone() }).collect() };
             let reply: Option<Option<pb::Target>> = match mode { 0 => Some(Some(echo(&cands[pick]))), 3 => None, _ => custom };
             shared.lock().unwrap().sel_reply = reply.clone();
-            let res = if n % 4 == 1 { rt.block_on(strat_app.select(&client, (&server.0, server.1), proto, (&user, &uid), cands.clone())) } else { rt.block_on(strat.select(&client, (&server.0, server.1), proto, (&user, &uid), cands.clone())) };
+            let res = std::panic::catch_unwind(std::panic::AssertUnwindSafe(|| if n % 4 == 1 { rt.block_on(strat_app.select(&client, (&server.0, server.1), proto, (&user, &uid), cands.clone())) } else { rt.block_on(strat.select(&client, (&server.0, server.1), proto, (&user, &uid), cands.clone())) }));
             let got_req = shared.lock().unwrap().last_req.clone();
             let mut why = vec![];
+            let res = match res { Ok(r) => r, Err(_) => { why.push(format!("the adapter panicked on protocol version {proto}")); Err(passage_adapters::Error::AdapterUnavailable { adapter_type: "strategy", reason: "panicked" }) } };
             match &got_req {
                 None => why.push("the strategy service was not called".to_string()),
                 Some(r) => {
@@ -218,6 +238,31 @@ pub fn run(a: &Args) {
             let v6 = mode == 0 && cands[pick].address.is_ipv6();
             cases.push(Case { request: req, observed, oracle: if why.is_empty() { None } else { Some(why.join("; ")) }, class: format!("select:{}:{}", ["echo", "none", "custom", "error"][mode as usize], if v6 { "v6" } else { "other" }) });
         }
+    }
+    // several logins at once on the one long-lived adapter: every caller's request carries ITS candidates and it gets ITS pick
+    // (the service echoes the first candidate of whatever request reaches it)
+    {
+        { let mut s = shared.lock().unwrap(); s.sel_error = false; s.sel_reply = None; s.echo_first = true; }
+        let strat = Arc::new(strat);
+        let rounds = if a.thorough { 400 } else { 60 };
+        let foreign: u64 = rt.block_on(async {
+            let hs: Vec<_> = (0..8u64).map(|t| { let strat = strat.clone(); tokio::spawn(async move {
+                let mut bad = 0u64;
+                for i in 0..rounds {
+                    let mine = Target { identifier: format!("task{t}-call{i}"), address: SocketAddr::new(IpAddr::from([10, 0, t as u8, (i % 250) as u8]), 25565), meta: HashMap::from([("owner".to_string(), format!("{t}/{i}"))]) };
+                    let other = Target { identifier: format!("task{t}-spare{i}"), address: SocketAddr::new(IpAddr::from([10, 1, t as u8, (i % 250) as u8]), 25565), meta: HashMap::new() };
+                    let client: SocketAddr = "192.0.2.7:50000".parse().unwrap();
+                    let uid = uuid::Uuid::from_u128(u128::from(t) << 32 | u128::from(i));
+                    match strat.select(&client, ("mc.example.org", 25565), 767, ("Player", &uid), vec![mine.clone(), other]).await { Ok(Some(got)) if got.identifier == mine.identifier && got.address == mine.address && got.meta == mine.meta => {}, _ => bad += 1 }
+                }
+                bad }) }).collect();
+            let mut total = 0; for h in hs { total += h.await.unwrap_or(rounds); } total });
+        shared.lock().unwrap().echo_first = false;
+        let n_calls = 8 * rounds;
+        // (the verdict rides on a copy of the last sequential call's request line, which the model answers as before)
+        let (request, observed) = cases.last().map(|c| (c.request.clone(), c.observed.clone())).unwrap_or_default();
+        cases.push(Case { request, observed,
+            oracle: if foreign == 0 { None } else { Some(format!("{foreign} of {n_calls} concurrent select calls on one adapter came back with a target that was not the caller's first candidate (requests mixed up between callers)")) }, class: "select:concurrent".into() });
     }
     write_cases(&a.out, &cases).expect("write cases");
     println!("c19: {} calls", cases.len());
